@@ -1,5 +1,133 @@
-import BytomModel.Model.Bech32
+/-
+C29 — Addresses and text encodings round-trip and detect corruption.
+
+Models: `BytomModel.Bech32` (bech32.go + the segwit address functions of address.go),
+`BytomModel.Base32`, `BytomModel.Mnemonic`.  All theorems are for ALL inputs of the stated
+shape (any length); finite character tables are closed by `decide` and lifted by lemmas.
+-/
+import BytomModel.Lemmas.Bech32
+
 namespace BytomModel.Props.C29
-open BytomModel.Bech32
-theorem placeholder : hrpMainnet = [98, 110] := rfl
+open BytomModel.Bech32 BytomModel.Lemmas.Bech32
+
+/-! ### the bech32 checksum -/
+
+/-- **xor-linearity** of the checksum state update (`bech32Polymod`'s loop body). -/
+theorem polymod_linear (a b v w : Nat) :
+    polymodStep (a ^^^ b) (v ^^^ w) = polymodStep a v ^^^ polymodStep b w :=
+  polymodStep_xor a b v w
+
+/-- the expanded hrp of a string of bytes consists of 30-bit values (indeed ≤ 31) -/
+theorem hrpExpand_lt (hrp : Bytes) (h : ∀ c ∈ hrp, c < 256) : ∀ v ∈ hrpExpand hrp, v < 2 ^ 30 := by
+  intro v hv
+  unfold hrpExpand at hv
+  simp only [List.mem_append, List.mem_map, List.mem_singleton] at hv
+  rcases hv with (⟨c, hc, rfl⟩ | rfl) | ⟨c, hc, rfl⟩
+  · have := h c hc
+    rw [Nat.shiftRight_eq_div_pow]; omega
+  · decide
+  · have e31 : (31 : Nat) = 2 ^ 5 - 1 := by decide
+    rw [e31, Nat.and_two_pow_sub_one_eq_mod]; omega
+
+/-- **The generated checksum verifies**, for every hrp and every 5-bit data of any length. -/
+theorem checksum_verifies (hrp data : Bytes) (hh : ∀ c ∈ hrp, c < 256) (hd : ∀ b ∈ data, b < 32) :
+    verifyChecksum hrp (data ++ checksum hrp data) = true := by
+  unfold verifyChecksum
+  rw [← List.append_assoc, polymod_checksum hrp data]
+  · rfl
+  · intro v hv
+    rcases List.mem_append.mp hv with h | h
+    · exact hrpExpand_lt hrp hh v h
+    · have := hd v h; omega
+
+/-- **Any single wrong symbol is detected**, at any position and for any length: if a data part
+    (with its checksum) verifies, the same data with one symbol replaced by a different one
+    does not. -/
+theorem single_symbol_error_detected (hrp pre post : Bytes) (x x' : Nat) (hx : x < 32) (hx' : x' < 32)
+    (hne : x ≠ x') (hv : verifyChecksum hrp (pre ++ x :: post) = true) :
+    verifyChecksum hrp (pre ++ x' :: post) = false := by
+  unfold verifyChecksum at hv ⊢
+  have h1 : polymod (hrpExpand hrp ++ (pre ++ x :: post)) = 1 := by simpa using hv
+  have := polymod_single_error (hrpExpand hrp ++ pre) post x x' (by omega) (by omega) hne
+  rw [List.append_assoc, List.append_assoc, h1] at this
+  simp only [beq_eq_false_iff_ne, ne_eq]
+  exact fun h => this h.symm
+
+/-! ### bech32 strings -/
+
+/-- **`Bech32Decode (Bech32Encode hrp data) = (hrp, data)`** for every non-empty hrp of printable
+    characters without upper-case letters and every 5-bit data, within the 90-character limit. -/
+theorem bech32_decode_encode (hrp data : Bytes) (hne : hrp ≠ [])
+    (hchars : ∀ c ∈ hrp, 33 ≤ c ∧ c ≤ 126 ∧ ¬ (65 ≤ c ∧ c ≤ 90))
+    (hdata : ∀ b ∈ data, b < 32) (hlen : hrp.length + data.length + 7 ≤ 90) :
+    ∃ s, encode hrp data = .ok s ∧ decode s = .ok (hrp, data) := by
+  have hall : ∀ b ∈ data ++ checksum hrp data, b < 32 := by
+    intro b hb
+    rcases List.mem_append.mp hb with h | h
+    · exact hdata b h
+    · exact checksum_lt hrp data b h
+  generalize hcs : (data ++ checksum hrp data).map (fun b => charset.getD b 0) = cs
+  have hcsProp : ∀ c ∈ cs, 33 ≤ c ∧ c ≤ 126 ∧ toLower c = c ∧ c ≠ 49 := by
+    intro c hc
+    rw [← hcs] at hc
+    obtain ⟨b, hb, rfl⟩ := List.mem_map.mp hc
+    have := charset_table b (hall b hb)
+    exact ⟨this.2.1, this.2.2.1, this.2.2.2.1, this.2.2.2.2⟩
+  have hcslen : cs.length = data.length + 6 := by
+    rw [← hcs]; simp [checksum_length]
+  refine ⟨hrp ++ [49] ++ cs, ?_, ?_⟩
+  · unfold encode; rw [toChars_ok _ hall, hcs]
+  · have hlenS : (hrp ++ [49] ++ cs).length = hrp.length + data.length + 7 := by
+      simp [hcslen]; omega
+    have hpos : 0 < hrp.length := List.length_pos_iff.mpr hne
+    have hrange : (hrp ++ [49] ++ cs).any (fun c => decide (c < 33 ∨ c > 126)) = false := by
+      rw [List.any_eq_false]
+      intro c hc
+      simp only [List.mem_append, List.mem_singleton] at hc
+      rcases hc with (h | rfl) | h
+      · have := hchars c h; simp; omega
+      · decide
+      · have := hcsProp c h; simp; omega
+    have hlower : (hrp ++ [49] ++ cs).map toLower = hrp ++ [49] ++ cs := by
+      rw [List.map_append, List.map_append]
+      congr 1
+      · congr 1
+        · conv => rhs; rw [← List.map_id hrp]
+          apply List.map_congr_left
+          intro c hc
+          have := hchars c hc
+          unfold toLower; rw [if_neg this.2.2]; rfl
+      · conv => rhs; rw [← List.map_id cs]
+        apply List.map_congr_left
+        intro c hc
+        exact (hcsProp c hc).2.2.1
+    have h49 : 49 ∉ cs := fun h => (hcsProp 49 h).2.2.2 rfl
+    have hlast : lastIndexOf 49 (hrp ++ [49] ++ cs) = some hrp.length := by
+      rw [List.append_assoc]; exact lastIndexOf_append hrp cs 49 h49
+    have htake : (hrp ++ [49] ++ cs).take hrp.length = hrp := by
+      rw [List.append_assoc, List.take_left']; rfl
+    have hdrop : (hrp ++ [49] ++ cs).drop (hrp.length + 1) = cs := by
+      have : hrp.length + 1 = (hrp ++ [49]).length := by simp
+      rw [this, List.drop_left']; rfl
+    have hbytes : toBytes cs = .ok (data ++ checksum hrp data) := by
+      rw [← hcs]; exact toBytes_chars _ hall
+    have hver : verifyChecksum hrp (data ++ checksum hrp data) = true :=
+      checksum_verifies hrp data (fun c hc => by have := hchars c hc; omega) hdata
+    unfold decode
+    rw [hlenS]
+    rw [if_neg (by omega)]
+    simp only [hrange]
+    rw [hlower]
+    simp only [Bool.false_eq_true, if_false, ne_eq, not_true_eq_false, false_and, hlast, hlenS]
+    rw [if_neg (by omega)]
+    simp only [htake, hdrop, hbytes, hver]
+    simp [checksum_length]
+
+/-! ### satisfiability of the hypotheses; tests on literals -/
+
+example : ∃ s, encode hrpMainnet [0, 1, 2, 31] = .ok s ∧ decode s = .ok (hrpMainnet, [0, 1, 2, 31]) :=
+  bech32_decode_encode hrpMainnet [0, 1, 2, 31] (by decide) (by decide) (by decide) (by decide)
+example : verifyChecksum hrpMainnet ([3, 7] ++ checksum hrpMainnet [3, 7]) = true := by decide
+example : verifyChecksum hrpMainnet ([3, 8] ++ checksum hrpMainnet [3, 7]) = false := by decide
+
 end BytomModel.Props.C29
